@@ -70,6 +70,9 @@ def scan_file(src, file):
     sites = []
     cls_cache = {}
     mm = module_mutables(tree)
+    repo_classes = src.__dict__.get('_repo_class_names')
+    if repo_classes is None:
+        repo_classes = src.__dict__['_repo_class_names'] = {c.name for f_ in src.py_files('mindsdb_sql') for c in ast.walk(src.tree(f_)) if isinstance(c, ast.ClassDef)}
     module_names = {t.id for st in tree.body if isinstance(st, ast.Assign) for t in st.targets if isinstance(t, ast.Name)}
     for fn in [n for n in ast.walk(tree) if isinstance(n, (ast.FunctionDef, ast.AsyncFunctionDef))]:
         fname = _fn_name(fn)
@@ -121,6 +124,11 @@ def scan_file(src, file):
                 if base == 'cls' or (cls is not None and base == cls.name):
                     return ('classattr', f'{cls.name if cls else base}.{e.attr}')
                 return None
+            if isinstance(e, ast.Attribute) and dotted(e.value) is not None:
+                # an attribute of ANOTHER class of the repository, named directly or through a module (`ast.Identifier.quote = ''`)
+                chain = dotted(e.value).split('.')
+                if chain[-1] in repo_classes and chain[0] not in local_names and chain[0] not in ('self', 'cls'):
+                    return ('classattr', f'{chain[-1]}.{e.attr}')
             if isinstance(e, ast.Attribute) and norm(e.value) in ('self.__class__', 'type(self)'):
                 return ('classattr', f'{cls.name if cls else "?"}.{e.attr}')
             if isinstance(e, ast.Subscript):
